@@ -106,14 +106,70 @@ def set_at(d, path, value):
     return d
 
 
-def mutate(rng, doc):
+def _kv_pool(corpus):
+    """Every (key, value) pair that occurs anywhere in the seed corpus: the
+    raw material of the 'transplant' operator (a key that is valid somewhere
+    in the language, with a value that is valid there, put somewhere else)."""
+    pool = {}
+
+    def walk(d):
+        if isinstance(d, dict):
+            for k, v in d.items():
+                if isinstance(k, str) and len(pool.setdefault(k, [])) < 12:
+                    try:
+                        if v not in pool[k]:
+                            pool[k].append(copy.deepcopy(v))
+                    except Exception:
+                        pass
+                walk(v)
+        elif isinstance(d, list):
+            for v in d:
+                walk(v)
+    for _, doc, _ in corpus:
+        walk(doc)
+    return sorted(pool.items())
+
+
+def inline_string(rng):
+    """Inline-parameter syntax (action / workflow / on-clause strings) with
+    list and dict values: balanced, nested, unbalanced, long."""
+    name = rng.choice(['std.echo', 'std.noop', 'wf.sub', 'fail', 'std.http'])
+    parts = []
+    for _ in range(rng.randint(1, 3)):
+        k = rng.choice(['output', 'a', 'url', 'msg', 'x_1'])
+        r = rng.random()
+        n = rng.choice([2, 5, 12, 30, 60])
+        body = ', '.join(str(10 * i) for i in range(n))
+        if r < 0.2:
+            v = '[%s]' % body
+        elif r < 0.35:
+            v = '[%s' % body                      # never closed
+        elif r < 0.45:
+            v = '%s]' % body
+        elif r < 0.6:
+            v = '[<%% $.a[$.b[0]] %%>, <%% $.%s[$.c[%d]] %%>]' % (
+                'z' * rng.choice([3, 20, 40]), n)
+        elif r < 0.7:
+            v = '[[%s], [%s' % (body, body)
+        elif r < 0.8:
+            v = '{"k": [%s], "l": {"m": [%s]' % (body, body)
+        elif r < 0.9:
+            v = '"%s' % ('q' * n)
+        else:
+            v = '<%% $.x.where($.y = [%s) %%>' % body
+        parts.append('%s=%s' % (k, v))
+    return '%s %s' % (name, ' '.join(parts))
+
+
+def mutate(rng, doc, pool=None):
     """-> (mutated doc or text, operator, path)"""
     d = copy.deepcopy(doc)
     ps = paths(d)
     path = rng.choice(ps)
     op = rng.choice(['replace', 'replace', 'replace', 'drop', 'rename',
                      'dup', 'wrap-list', 'wrap-dict', 'deep', 'text',
-                     'odd-member', 'inline+input'])
+                     'odd-member', 'inline+input', 'transplant',
+                     'transplant', 'inline-list'])
     try:
         if op == 'odd-member':
             # a member of a named collection gets an odd name and / or a
@@ -138,6 +194,24 @@ def mutate(rng, doc):
                 if ' ' not in t['action']:
                     t['action'] = t['action'] + ' a=1 b="x"'
                 t['input'] = copy.deepcopy(rng.choice(VALUES))
+            else:
+                op = 'replace'
+        if op == 'transplant':
+            dicts = [q for q in ps if isinstance(get_at(d, q), dict)]
+            if pool and dicts:
+                path = rng.choice(dicts)
+                k, vals = rng.choice(pool)
+                get_at(d, path)[k] = copy.deepcopy(rng.choice(vals))
+            else:
+                op = 'replace'
+        if op == 'inline-list':
+            strs = [q for q in ps if q and isinstance(get_at(d, q), str) and
+                    (q[-1] in ('action', 'workflow', 'base', 'retry') or
+                     (len(q) >= 2 and isinstance(q[-1], int) and
+                      str(q[-2]).startswith('on-')))]
+            if strs:
+                path = rng.choice(strs)
+                d = set_at(d, path, inline_string(rng))
             else:
                 op = 'replace'
         if op == 'replace':
@@ -166,7 +240,8 @@ def mutate(rng, doc):
             for _ in range(rng.choice([30, 80, 400])):
                 v = [v] if rng.random() < 0.5 else {'k': v}
             d = set_at(d, path, v)
-        elif op in ('odd-member', 'inline+input'):
+        elif op in ('odd-member', 'inline+input', 'transplant',
+                    'inline-list'):
             pass
         else:
             op = 'text'
@@ -354,40 +429,32 @@ def classify(fn, text, res, desc, budget=20.0):
     return out, v
 
 
-def run_case(case):
-    from mvf import boot
-    boot.bootstrap()
-    from mistral.lang import parser as sp
-    from mistral.services import workbooks as wb_service
-    from mistral.services import workflows as wf_service
-    from mistral.utils import safe_yaml
-    from mistral import context as auth_context
+HANG_S = 40          # first pass: a single entry-point call may take this
+HANG_ISOLATED_S = 200  # ... and this long when re-run alone (10x the budget)
 
-    res = {'violations': [], 'executions': 0, 'keys': [],
-           'monitor_evaluations': {'outcome-class': 0, 'spec-round-trip': 0,
-                                   'workbook-slicing': 0},
-           'extra': {'accepted': 0, 'rejected': 0, 'max_call_s': 0.0},
-           'sample': None}
+
+def _plan(case):
+    """Deterministic work list of the case: every random choice is made
+    here, so that a child process restarted after a hang can resume at an
+    index."""
     rng = random.Random(case['mseed'])
     corpus = seeds()
     for i in range(8):
         P = gdirect.gen(random.Random(rng.getrandbits(32)), commands=True,
                         bad_expr=False)
         corpus.append(('gen-%d' % i, gdirect.to_def(P), gdirect.to_yaml(P)))
-    parsers = {'wf': sp.get_workflow_list_spec_from_yaml,
-               'wb': sp.get_workbook_spec_from_yaml,
-               'act': sp.get_action_list_spec_from_yaml}
-    boot.wipe_db()
+    pool = _kv_pool(corpus)
+    items = []
     for n in range(case['n']):
         name, doc, orig = rng.choice(corpus)
         if n % 12 == 0:
             mut, op, path = doc, 'identity', ()
             text = orig
         else:
-            mut, op, path = mutate(rng, doc)
+            mut, op, path = mutate(rng, doc, pool)
             if isinstance(mut, dict) and rng.random() < 0.35:
                 # two cooperating mutations (e.g. odd name + wrong type)
-                mut2, op2, path2 = mutate(rng, mut)
+                mut2, op2, path2 = mutate(rng, mut, pool)
                 if not isinstance(mut2, str):
                     mut, op, path = mut2, op + '+' + op2, path + path2
             text = to_text(mut)
@@ -395,113 +462,284 @@ def run_case(case):
         kinds = [kind]
         if rng.random() < 0.25:
             kinds.append(rng.choice(['wf', 'wb', 'act']))
-        for k in kinds:
-            res['executions'] += 1
-            desc = {'seed_doc': name, 'op': op,
-                    'path': '/'.join(str(p) for p in path)[:80],
-                    'entry': 'parser:' + k, 'text': text[:1500]}
-            out, spec = classify(parsers[k], text, res, desc)
-            res['extra']['accepted' if out == 'accepted' else
-                         'rejected'] += 1
-            if op != 'identity' or True:
-                res['keys'].append([name, op, desc['path'], k, out])
-            if out != 'accepted':
+        items.append({'phase': 'parser', 'name': name, 'op': op,
+                      'path': '/'.join(str(x) for x in path)[:80],
+                      'text': text, 'kinds': kinds,
+                      'service': rng.random() < 0.3})
+    for i in range(max(10, case['n'] // 5)):
+        name, doc, orig = rng.choice(corpus)
+        mut, op, path = mutate(rng, doc, pool)
+        text = to_text(mut)
+        kind = kind_of(mut if isinstance(mut, dict) else doc)
+        items.append({'phase': 'rest', 'name': name, 'op': op, 'text': text,
+                      'coll': {'wf': 'workflows', 'wb': 'workbooks',
+                               'act': 'actions'}[kind], 'i': i})
+    return items
+
+
+def _new_res():
+    return {'violations': [], 'executions': 0, 'keys': [],
+            'monitor_evaluations': {'outcome-class': 0, 'spec-round-trip': 0,
+                                    'workbook-slicing': 0, 'http-status': 0,
+                                    'hang-watchdog': 0},
+            'extra': {'accepted': 0, 'rejected': 0, 'max_call_s': 0.0,
+                      'hang_watchdog_fired': 0, 'slow_only_under_load': 0},
+            'sample': None}
+
+
+def _dump(path, obj):
+    import os
+    tmp = path + '.tmp'
+    with open(tmp, 'w') as f:
+        json.dump(obj, f, default=str)
+    os.replace(tmp, path)
+
+
+def _run_items(case, out_file, crumb_file, start=0, skip=(), only=None,
+               hang_s=HANG_S):
+    """Child side: runs the planned items under a per-item watchdog that
+    kills the process (a call stuck in C code - a regular expression, a
+    YAML scanner - cannot be interrupted any other way)."""
+    import faulthandler
+    import os
+    from mvf import boot
+    boot.bootstrap()
+    from mistral.lang import parser as sp
+    from mistral.services import workbooks as wb_service
+    from mistral.services import workflows as wf_service
+    from mistral.utils import safe_yaml
+    from mistral import context as auth_context
+    res = _new_res()
+    if os.path.exists(out_file):
+        res = json.load(open(out_file))
+        res.pop('done', None)
+    items = _plan(case)
+    parsers = {'wf': sp.get_workflow_list_spec_from_yaml,
+               'wb': sp.get_workbook_spec_from_yaml,
+               'act': sp.get_action_list_spec_from_yaml}
+    boot.wipe_db()
+    R = None
+    try:
+        for idx, it in enumerate(items):
+            if idx < start or idx in skip or \
+                    (only is not None and idx != only):
                 continue
-            if res['sample'] is None and op != 'identity':
-                res['sample'] = {'seed_doc': name, 'operator': op,
-                                 'path': desc['path'], 'entry': k,
-                                 'outcome': out, 'text': text[:600]}
-            # stored form -> same definition
-            wfs = []
-            if k == 'wf':
-                wfs = list(spec.get_workflows())
-            elif k == 'wb':
-                wfs = list(spec.get_workflows() or [])
-            for wf in wfs:
-                res['monitor_evaluations']['spec-round-trip'] += 1
-                try:
-                    f1 = fingerprint(wf)
-                    stored = json.loads(json.dumps(wf.to_dict()))
-                    wf2 = sp.get_workflow_spec(stored)
-                    f2 = fingerprint(wf2)
-                except Exception as e:
-                    import traceback
-                    res['violations'].append(dict(
-                        desc, prop='C14', monitor='spec-round-trip',
-                        mech='reload-fails-%s' % type(e).__name__,
-                        msg='accepted workflow %r cannot be rebuilt from '
-                            'its stored form: %s: %s' % (
-                                wf.get_name(), type(e).__name__,
-                                traceback.format_exc()[-400:])))
-                    continue
-                if f1 != f2:
-                    from mvf import nf as nf_mod
-                    res['violations'].append(dict(
-                        desc, prop='C14', monitor='spec-round-trip',
-                        mech='reloaded-spec-differs',
-                        msg='workflow %r rebuilt from its stored form '
-                            'differs: %s' % (wf.get_name(),
-                                             nf_mod.diff(f1, f2))))
-            if k == 'wb':
-                _check_slicing(sp, safe_yaml, text, spec, res, desc)
-            # a share goes through the services (DB) too
-            if rng.random() < 0.3 and k in ('wf', 'wb'):
-                auth_context.set_ctx(boot.default_ctx())
-                fn = (wf_service.create_workflows if k == 'wf'
-                      else wb_service.create_workbook_v2)
-                d2 = dict(desc, entry='service:' + k)
-                res['executions'] += 1
-                o2, v2 = classify(fn, text, res, d2)
-                if o2 == 'accepted':
-                    fn2 = (wf_service.update_workflows if k == 'wf'
-                           else wb_service.update_workbook_v2)
-                    classify(fn2, text, res, dict(desc,
-                                                  entry='service-update:' +
-                                                  k))
-                    if k == 'wf':
-                        _check_cut(sp, safe_yaml, text, v2, res, d2)
-                auth_context.set_ctx(None)
-                boot.wipe_db()
-    _rest_pass(case, rng, corpus, res)
+            _dump(crumb_file, {'idx': idx, 'phase': it['phase'],
+                               'seed_doc': it['name'], 'op': it['op'],
+                               'text': it['text'][:1500]})
+            faulthandler.dump_traceback_later(hang_s, exit=True)
+            res['monitor_evaluations']['hang-watchdog'] += 1
+            if it['phase'] == 'parser':
+                _parser_item(it, res, parsers, sp, safe_yaml, wf_service,
+                             wb_service, auth_context, boot)
+            else:
+                if R is None:
+                    from mvf import rest as rest_mod
+                    R = rest_mod.Rest()
+                _rest_item(it, res, R)
+            faulthandler.cancel_dump_traceback_later()
+            _dump(out_file, res)
+    finally:
+        faulthandler.cancel_dump_traceback_later()
+        if R is not None:
+            R.close()
+            from oslo_config import cfg
+            cfg.CONF.set_override('auth_enable', False, 'pecan')
     if res['sample'] is None:
         res['sample'] = {'note': 'no mutant accepted in this shard'}
+    res['done'] = True
+    _dump(out_file, res)
     return res
 
 
-def _rest_pass(case, rng, corpus, res):
+def _parser_item(it, res, parsers, sp, safe_yaml, wf_service, wb_service,
+                 auth_context, boot):
+    name, op, text = it['name'], it['op'], it['text']
+    for k in it['kinds']:
+        res['executions'] += 1
+        desc = {'seed_doc': name, 'op': op, 'path': it['path'],
+                'entry': 'parser:' + k, 'text': text[:1500]}
+        out, spec = classify(parsers[k], text, res, desc)
+        res['extra']['accepted' if out == 'accepted' else 'rejected'] += 1
+        res['keys'].append([name, op, desc['path'], k, out])
+        if out != 'accepted':
+            continue
+        if res['sample'] is None and op != 'identity':
+            res['sample'] = {'seed_doc': name, 'operator': op,
+                             'path': desc['path'], 'entry': k,
+                             'outcome': out, 'text': text[:600]}
+        # stored form -> same definition
+        wfs = []
+        if k == 'wf':
+            wfs = list(spec.get_workflows())
+        elif k == 'wb':
+            wfs = list(spec.get_workflows() or [])
+        for wf in wfs:
+            res['monitor_evaluations']['spec-round-trip'] += 1
+            try:
+                f1 = fingerprint(wf)
+                stored = json.loads(json.dumps(wf.to_dict()))
+                wf2 = sp.get_workflow_spec(stored)
+                f2 = fingerprint(wf2)
+            except Exception as e:
+                import traceback
+                res['violations'].append(dict(
+                    desc, prop='C14', monitor='spec-round-trip',
+                    mech='reload-fails-%s' % type(e).__name__,
+                    msg='accepted workflow %r cannot be rebuilt from '
+                        'its stored form: %s: %s' % (
+                            wf.get_name(), type(e).__name__,
+                            traceback.format_exc()[-400:])))
+                continue
+            if f1 != f2:
+                from mvf import nf as nf_mod
+                res['violations'].append(dict(
+                    desc, prop='C14', monitor='spec-round-trip',
+                    mech='reloaded-spec-differs',
+                    msg='workflow %r rebuilt from its stored form '
+                        'differs: %s' % (wf.get_name(),
+                                         nf_mod.diff(f1, f2))))
+        if k == 'wb':
+            _check_slicing(sp, safe_yaml, text, spec, res, desc)
+        # a share goes through the services (DB) too
+        if it['service'] and k in ('wf', 'wb'):
+            auth_context.set_ctx(boot.default_ctx())
+            fn = (wf_service.create_workflows if k == 'wf'
+                  else wb_service.create_workbook_v2)
+            d2 = dict(desc, entry='service:' + k)
+            res['executions'] += 1
+            o2, v2 = classify(fn, text, res, d2)
+            if o2 == 'accepted':
+                fn2 = (wf_service.update_workflows if k == 'wf'
+                       else wb_service.update_workbook_v2)
+                classify(fn2, text, res, dict(desc,
+                                              entry='service-update:' + k))
+                if k == 'wf':
+                    _check_cut(sp, safe_yaml, text, v2, res, d2)
+            auth_context.set_ctx(None)
+            boot.wipe_db()
+
+
+def _rest_item(it, res, R):
     """A share of the mutants over HTTP: 2xx or 4xx, never 5xx."""
-    from mvf import rest as rest_mod
-    R = rest_mod.Rest()
-    res['monitor_evaluations']['http-status'] = 0
-    n = max(10, case['n'] // 5)
+    name, op, text, coll = it['name'], it['op'], it['text'], it['coll']
+    if it['i'] % 25 == 0:
+        R.reset()
+    for verb, url in (('POST', '/v2/%s/validate' % coll),
+                      ('POST', '/v2/%s' % coll),
+                      ('PUT', '/v2/%s' % coll)):
+        res['executions'] += 1
+        res['monitor_evaluations']['http-status'] += 1
+        o = R.request(verb, url, text=text, roles='admin')
+        res['keys'].append([name, op, 'http', url, o['status']])
+        if o['status'] >= 500:
+            res['violations'].append({
+                'prop': 'C14', 'monitor': 'http-status',
+                'mech': 'http-%s-%s' % (o['status'], coll),
+                'seed_doc': name, 'op': op, 'text': text[:1500],
+                'msg': '%s %s answered %s: %s' % (
+                    verb, url, o['status'], o['body'][:300])})
+
+
+def _spawn_child(case, out_file, crumb_file, start, skip, only, hang_s,
+                 timeout):
+    import os
+    import subprocess
+    import sys
+    root = os.path.dirname(os.path.dirname(os.path.dirname(
+        os.path.abspath(__file__))))
+    args = {'case': case, 'out': out_file, 'crumb': crumb_file,
+            'start': start, 'skip': sorted(skip), 'only': only,
+            'hang_s': hang_s}
+    arg_file = out_file + '.args'
+    json.dump(args, open(arg_file, 'w'))
+    env = dict(os.environ)
+    env['PYTHONPATH'] = os.pathsep.join(
+        [x for x in (os.environ.get('MVF_REPO'), root,
+                     env.get('PYTHONPATH', '')) if x])
     try:
-        for i in range(n):
-            name, doc, orig = rng.choice(corpus)
-            mut, op, path = mutate(rng, doc)
-            text = to_text(mut)
-            kind = kind_of(mut if isinstance(mut, dict) else doc)
-            coll = {'wf': 'workflows', 'wb': 'workbooks',
-                    'act': 'actions'}[kind]
-            if i % 25 == 0:
-                R.reset()
-            for verb, url in (('POST', '/v2/%s/validate' % coll),
-                              ('POST', '/v2/%s' % coll),
-                              ('PUT', '/v2/%s' % coll)):
-                res['executions'] += 1
-                res['monitor_evaluations']['http-status'] += 1
-                o = R.request(verb, url, text=text, roles='admin')
-                res['keys'].append([name, op, 'http', url, o['status']])
-                if o['status'] >= 500:
-                    res['violations'].append({
-                        'prop': 'C14', 'monitor': 'http-status',
-                        'mech': 'http-%s-%s' % (o['status'], coll),
-                        'seed_doc': name, 'op': op, 'text': text[:1500],
-                        'msg': '%s %s answered %s: %s' % (
-                            verb, url, o['status'], o['body'][:300])})
-    finally:
-        R.close()
-        from oslo_config import cfg
-        cfg.CONF.set_override('auth_enable', False, 'pecan')
+        p = subprocess.run([sys.executable, '-m', 'mvf.checks.c14',
+                            arg_file], cwd=root, env=env, timeout=timeout,
+                           stdout=subprocess.PIPE, stderr=subprocess.STDOUT)
+        return p.returncode, p.stdout.decode(errors='replace')[-3000:]
+    except subprocess.TimeoutExpired as e:
+        return 'timeout', (e.stdout or b'').decode(errors='replace')[-3000:]
+
+
+def run_case(case):
+    """Parent side: the items run in a child process guarded by a
+    faulthandler watchdog.  When the child is killed on an item, that item
+    is re-run alone with ten times the budget: killed again => the entry
+    point hangs (violation); finishes => slow under load only (counted)."""
+    import os
+    import tempfile
+    d = tempfile.mkdtemp(prefix='c14-')
+    out_file = os.path.join(d, 'res.json')
+    crumb_file = os.path.join(d, 'crumb.json')
+    skip = set()
+    start = 0
+    hangs = []
+    slow = 0
+    fired = 0
+    note = None
+    for attempt in range(8):
+        rc, tail = _spawn_child(case, out_file, crumb_file, start, skip,
+                                None, HANG_S, CASE_TIMEOUT - 200)
+        res = json.load(open(out_file)) if os.path.exists(out_file) \
+            else _new_res()
+        if rc == 0 and res.get('done'):
+            break
+        if not os.path.exists(crumb_file):
+            note = 'child died before the first item: rc=%s %s' % (
+                rc, tail[-500:])
+            break
+        crumb = json.load(open(crumb_file))
+        fired += 1
+        iso_out = os.path.join(d, 'iso%d.json' % attempt)
+        iso_crumb = os.path.join(d, 'isoc%d.json' % attempt)
+        rc2, tail2 = _spawn_child(case, iso_out, iso_crumb, 0, (),
+                                  crumb['idx'], HANG_ISOLATED_S,
+                                  HANG_ISOLATED_S + 120)
+        iso = json.load(open(iso_out)) if os.path.exists(iso_out) else {}
+        if rc2 == 0 and iso.get('done'):
+            slow += 1
+            # its verdicts count, from the isolated run
+            for v in iso.get('violations') or []:
+                res['violations'].append(v)
+        else:
+            hangs.append({
+                'prop': 'C14', 'monitor': 'outcome-class',
+                'mech': 'hang-%s' % crumb['phase'],
+                'seed_doc': crumb['seed_doc'], 'op': crumb['op'],
+                'text': crumb['text'],
+                'msg': 'validation did not return: killed by the watchdog '
+                       'after %ds, and again after %ds when run alone '
+                       '(%s mutant of %s): %s' % (
+                           HANG_S, HANG_ISOLATED_S, crumb['op'],
+                           crumb['seed_doc'],
+                           (tail2 or '')[-300:].replace('\n', ' | '))})
+        skip.add(crumb['idx'])
+        start = crumb['idx'] + 1
+        _dump(out_file, res)
+    else:
+        note = 'more than 8 watchdog kills in one case'
+    res = json.load(open(out_file)) if os.path.exists(out_file) \
+        else _new_res()
+    res.pop('done', None)
+    res['violations'].extend(hangs)
+    res['extra']['hang_watchdog_fired'] = fired
+    res['extra']['slow_only_under_load'] = slow
+    if note:
+        res['inconclusive'] = note
+    import shutil
+    shutil.rmtree(d, ignore_errors=True)
+    return res
+
+
+def _child_main(arg_file):
+    a = json.load(open(arg_file))
+    _run_items(a['case'], a['out'], a['crumb'], a['start'],
+               set(a['skip']), a['only'], a['hang_s'])
 
 
 def _check_slicing(sp, safe_yaml, text, wb_spec, res, desc):
@@ -562,3 +800,8 @@ def _check_cut(sp, safe_yaml, text, db_wfs, res, desc):
                 mech='stored-definition-differs',
                 msg='definition stored for workflow %r is not the one '
                     'submitted' % wf_def.name))
+
+
+if __name__ == '__main__':
+    import sys
+    _child_main(sys.argv[1])
